@@ -26,6 +26,7 @@ CONSTANTS
   BroadcastDedup = TRUE
   FIX_PruneEmpty = TRUE
   AllowLate = TRUE
+  TrackEvicted = FALSE
   AtomicCheck = FALSE
   FlipAccounts = {"A", "B"}
   Self = "A"
